@@ -296,7 +296,7 @@ func (w *hdrWorld) lookupProp(op hdrOp) string {
 	switch op.Op {
 	case "clean":
 		return "C09+C10"
-	case "save", "load":
+	case "save", "load", "legacy":
 		return "C09+C11"
 	case "mark", "unmark":
 		return "C09+C17"
@@ -502,6 +502,45 @@ func (w *hdrWorld) run() {
 					w.subs = nil
 					w.recon = nil
 				}
+			case "legacy":
+				// a store written before branches existed: version-0 files with the chain to block op.B
+				// (op.B = 0: an empty store); Load migrates it
+				w.cmp("C11")
+				store := &jstore{MockStorage: storage.NewMockStorage()}
+				if op.B != 0 {
+					g, err := w.repo.Header(w.ctx, 0)
+					if err != nil {
+						panic("harness: genesis header " + err.Error())
+					}
+					chain := []*wire.BlockHeader{g}
+					var path []int
+					for b := op.B; b != 0; b = w.parentOf(b) {
+						path = append([]int{b}, path...)
+					}
+					for _, b := range path {
+						chain = append(chain, w.headersOf(b)...)
+					}
+					for file := 0; file*1000 < len(chain); file++ {
+						buf := &bytes.Buffer{}
+						buf.WriteByte(0)
+						for i := file * 1000; i < len(chain) && i < (file+1)*1000; i++ {
+							if err := chain[i].Serialize(buf); err != nil {
+								panic("harness: serialize " + err.Error())
+							}
+						}
+						store.MockStorage.Write(w.ctx, fmt.Sprintf("headers/%08x", file), buf.Bytes(), nil)
+					}
+				}
+				r2 := w.newRepo(store)
+				if err := w.doLoad(r2); err != nil {
+					w.fail("C11", step, op, "load of a legacy (version 0) store: "+err.Error())
+					stop = true
+				} else {
+					w.repo = r2
+					w.store = store
+					w.subs = nil
+					w.recon = nil
+				}
 			case "reload":
 				w.cmp("C12")
 				if msg := w.checkImage(w.store.MockStorage, op.Exp.Ever, op.Exp.SavedWork); msg != "" {
@@ -536,7 +575,7 @@ func (w *hdrWorld) run() {
 		}()
 		if panicked != "" {
 			prop := map[string]string{"submit": "C08", "clean": "C10", "save": "C11", "load": "C11",
-				"reload": "C12", "mark": "C17", "unmark": "C17", "subscribe": "C07"}[op.Op]
+				"reload": "C12", "legacy": "C11", "mark": "C17", "unmark": "C17", "subscribe": "C07"}[op.Op]
 			w.fail(prop, step, op, "PANIC "+panicked)
 			return
 		}
@@ -971,7 +1010,7 @@ func (w *hdrWorld) tipProp(op hdrOp) string {
 	switch op.Op {
 	case "clean":
 		return "C10"
-	case "save", "load":
+	case "save", "load", "legacy":
 		return "C11"
 	case "mark", "unmark":
 		return "C17"
@@ -986,7 +1025,7 @@ func (w *hdrWorld) chainProp(op hdrOp, ht int, exp hdrExp) string {
 			return "C10+C09"
 		}
 		return "C10"
-	case "save", "load":
+	case "save", "load", "legacy":
 		if ht < exp.FloorB*w.o.S {
 			return "C11+C09"
 		}
@@ -1005,7 +1044,7 @@ func (w *hdrWorld) rangeProp(op hdrOp, ht int, exp hdrExp) string {
 	switch op.Op {
 	case "clean":
 		return "C10+C09"
-	case "save", "load":
+	case "save", "load", "legacy":
 		return "C11+C09"
 	}
 	return "C09"
